@@ -415,15 +415,19 @@ def raw_node(rng, depth):
         # elements of the same name nested in it and content after them: the dropping state must
         # count same-name STARTs whether or not they are safe by themselves (seeded change C06-2)
         pw = rng.choice(['password', 'PASSWORD', 'Password'])
+        # the rule looks at QName.localname: also `input` in a namespace, in the EMPTY namespace
+        # ('}input' = '{}input') and spelled '{input' (= plain input)
+        itag = rng.choice([('', 'input')] * 4 + [('', '}input'), ('u', 'input'), ('http://www.w3.org/1999/xhtml', 'input'),
+                                                 ('', '{input'), ('u', 'x}input')]) if ODD_NAMES else ('', 'input')
         kids = []
         for _ in range(rng.choice([1, 1, 2])):
-            kids.append(('elem', ('', 'input'), [(('', 'type'), rng.choice(['text', 'checkbox']))] if rng.random() < 0.6 else [],
+            kids.append(('elem', itag, [(('', 'type'), rng.choice(['text', 'checkbox']))] if rng.random() < 0.6 else [],
                          [raw_node(rng, depth + 2)] if rng.random() < 0.3 else []))
             if rng.random() < 0.8:
                 kids.append(('leaf', ('T', text_payload(rng), False)))
         if rng.random() < 0.5:
             kids.append(raw_node(rng, depth + 2))
-        return ('elem', ('', 'input'), [(('', 'type'), pw)], kids)
+        return ('elem', itag, [(('', 'type'), pw)], kids)
     if r < 0.55 and depth < 5:
         tag = raw_qname(rng, SAFE_TAGS_V, UNSAFE_TAGS_V)
         attrs = []
